@@ -207,6 +207,48 @@ pub fn crossdef_strategy() -> BoxedStrategy<FaultCase> {
         .boxed()
 }
 
+/// Data whose header carries a "field removed" entry exactly where the reader's declaration has the step that ADDS
+/// that field: the bytes are the reference encoding of the twin declaration D' (step k = FieldRemoved(n), no field n),
+/// the reader is D (step k = FieldAdded(n, ..), field n present). For the reader the removal does not concern its
+/// field (it is not later than the step that introduced it) and the chunk it expects is not there.
+pub fn swapped_step_strategy() -> BoxedStrategy<FaultCase> {
+    use vmodel::{Record, Step};
+    let cfg = ValCfg { max_len: 4, long: false, ..ValCfg::default() };
+    (vmodel::declgen::history_spec_strategy(4, 6), any::<u16>(), any::<u16>())
+        .prop_filter_map("a version with an added field", |(spec, vs, ks)| {
+            let versions = vmodel::declgen::build_history(&spec, &vmodel::declgen::dynamic_menu(false));
+            let with_added: Vec<&Record> = versions.iter().filter(|r| r.steps.iter().any(|s| matches!(s, Step::Added { name, .. } if r.fields.iter().any(|f| &f.name == name && f.transient.is_none())))).collect();
+            if with_added.is_empty() {
+                return None;
+            }
+            let d = with_added[vmodel::gen::pick(vs, with_added.len())].clone();
+            let cands: Vec<usize> = d.steps.iter().enumerate().filter(|(_, s)| matches!(s, Step::Added { name, .. } if d.fields.iter().any(|f| &f.name == name && f.transient.is_none()))).map(|(i, _)| i).collect();
+            let k = cands[vmodel::gen::pick(ks, cands.len())];
+            let name = match &d.steps[k] {
+                Step::Added { name, .. } => name.clone(),
+                _ => unreachable!(),
+            };
+            // later steps that refer to the field would not make sense for the twin
+            if d.steps[k + 1..].iter().any(|s| matches!(s, Step::MadeOptional { name: n } | Step::Removed { name: n } | Step::MadeTransient { name: n } if *n == name)) {
+                return None;
+            }
+            let mut twin = d.clone();
+            twin.steps[k] = Step::Removed { name: name.clone() };
+            twin.fields.retain(|f| f.name != name);
+            Some((d, twin))
+        })
+        .prop_flat_map(move |(d, twin)| {
+            let tw = Ty::Adt(vmodel::declgen::struct_decl("DynSwT", &twin));
+            (Just(d), Just(tw.clone()), vmodel::gen::val_strategy(&tw, cfg))
+        })
+        .prop_filter_map("encodable", |(d, tw, val)| {
+            let bytes = ref_encode(&tw, &val).ok()?.bytes;
+            let h = vmodel::fnv64(format!("{d:?}").as_bytes()) as u32;
+            Some(FaultCase::Raw { ty: Ty::Adt(vmodel::declgen::struct_decl(&format!("DynSw{h:08x}"), &d)), bytes })
+        })
+        .boxed()
+}
+
 // ------------------------------------------------------------------------------------------------ C05
 
 /// how many elements the *type* (not the input) can demand per input byte: a fixed-size array [T; N] of elements
@@ -582,6 +624,7 @@ fn c06_strategy(stream: u64) -> BoxedStrategy<FaultCase> {
     match stream {
         1 => raw_strategy(),
         3 => crossdef_strategy(),
+        4 => swapped_step_strategy(),
         _ => tampered_strategy(),
     }
 }
@@ -590,7 +633,7 @@ pub fn run_c06(cx: &Cx) -> PropResult {
     let n_raw = cx.n(12_000, 400_000);
     let n_tam = cx.n(50_000, 1_500_000);
     let acc = parallel(cx, &|shard, acc| {
-        for (stream, n) in [(1u64, n_raw), (2, n_tam), (3, n_tam / 2)] {
+        for (stream, n) in [(1u64, n_raw), (2, n_tam), (3, n_tam / 2), (4, n_tam / 10)] {
             let strat = c06_strategy(stream);
             if drive(tag_seed(derive_seed(cx.seed, cx.prop, shard as u64, stream), stream), &strat, n, acc, &|c: &FaultCase| to_json(c), &mut |c, a, r| check_c06(c, a, r)) {
                 return;
